@@ -131,6 +131,51 @@ fn judge(base: Option<&RunOut>, out: &RunOut, f: &Faults) -> Vec<(Json, String)>
     v
 }
 
+/// Totality does not stop at the first run: a sequence of runs on one VM that is never cleared,
+/// sharing a global table under a tight memory limit (so that growths of the table fail again and
+/// again), with budget and allocation faults mixed in. Every run must come back.
+fn examine_sequence(ctx: &mut CaseCtx, h: &super::c17::History) -> Vec<(Json, String)> {
+    let mut found: Vec<(Json, String)> = vec![];
+    let compiled: Vec<CaoCompiledProgram> = h
+        .programs
+        .iter()
+        .filter_map(|m| match compile_module(m) {
+            Compiled::Ok(p) => Some(p),
+            _ => None,
+        })
+        .collect();
+    if compiled.len() != h.programs.len() {
+        return found;
+    }
+    let Some(mut machine) = super::c17::Machine::new(h) else { return found };
+    let none = Faults::default();
+    for (i, st) in h.steps.iter().enumerate() {
+        ctx.progress(&format!("run sequence step {i}"));
+        let (_obs, out) = machine.step(&compiled[st.program], &st.fault);
+        ctx.evaluation();
+        ctx.count("sequence_runs", 1);
+        if innermost(&out.result) == "OutOfMemory" {
+            ctx.count("fault:sequence_run_met_the_memory_limit", 1);
+        }
+        // the observer bound of a sequence step is the VM's own budget: only panics (incl. the
+        // bounded probe loops giving up) and ledger findings are judged here
+        let mut o2 = out;
+        o2.aborted = false;
+        for (s, w) in judge(None, &o2, &none) {
+            let mut s = s;
+            s["sequence"] = json!(true);
+            if !found.iter().any(|(x, _)| x == &s) {
+                found.push((s, format!("run #{i} of a sequence on one VM (never cleared, limit {} bytes): {w}", h.mem_limit)));
+            }
+        }
+        if o2.panic.is_some() {
+            break;
+        }
+    }
+    machine.finish();
+    found
+}
+
 fn examine_program(ctx: &mut CaseCtx, m: &Module, only: Option<&Faults>) -> Vec<(Json, String, Faults)> {
     let mut found: Vec<(Json, String, Faults)> = vec![];
     ctx.progress("compile");
@@ -363,7 +408,7 @@ impl Check for C04 {
         "fault_enumeration"
     }
     fn rule(&self) -> String {
-        "run half (6 of 8 cases): one seeded program (G-alloc, G-loop or G-hostile: non-function callees, wrongly typed operands \
+        "sequence (1 of 16 cases): 5-21 runs on one VM that is never cleared, sharing a global table under a memory limit of          400-4400 bytes (growths of the table fail again and again), budget / allocation faults mixed in; every run must return.          run half (the other cases up to 6 of 8): one seeded program (G-alloc, G-loop or G-hostile: non-function callees, wrongly typed operands \
          for every operator / table instruction / stdlib function, i64 extremes, self- and mutually-referential tables compared, \
          hashed, used as keys, deep recursion, long strings); dry run gives A allocations, peak stack height h, peak call depth d, \
          T instructions; then EVERY j < A fails once (seeded subset above a per-tier cap), every value-stack size 1..=h+2, every \
@@ -384,6 +429,17 @@ impl Check for C04 {
             compile_half(ctx);
             return;
         }
+        if ctx.case % 8 == 5 && ctx.case % 16 == 5 {
+            let mut wr = ctx.rng("workload");
+            let h = super::c17::gen_persist_history(&mut wr);
+            ctx.count("programs:sequence-on-one-vm", 1);
+            let hv = serde_json::to_value(&h).unwrap();
+            ctx.nontrivial(crate::kernel::stable_hash_json(&hv));
+            for (sig, what) in examine_sequence(ctx, &h) {
+                ctx.violation(sig, what, json!({"sequence": hv}));
+            }
+            return;
+        }
         let (m, kind) = gen_run_case(ctx);
         ctx.count(&format!("programs:{kind}"), 1);
         if std::env::var_os("CAOSIM_DUMP").is_some() {
@@ -399,6 +455,25 @@ impl Check for C04 {
         }
     }
     fn minimise(&self, replay: &Json, sig: &Json) -> Json {
+        if let Some(h) = replay.get("sequence").and_then(|h| serde_json::from_value::<super::c17::History>(h.clone()).ok()) {
+            // drop steps (never the first, which creates the shared table) while the same report persists
+            let mut cur = h;
+            let fails = |c: &super::c17::History| {
+                let mut c2 = CaseCtx::new("C04", 0, 0, Tier::Quick);
+                c2.progress_enabled = false;
+                examine_sequence(&mut c2, c).iter().any(|(s, _)| s == sig)
+            };
+            let mut i = cur.steps.len();
+            while i > 1 {
+                i -= 1;
+                let mut cand = cur.clone();
+                cand.steps.remove(i);
+                if fails(&cand) {
+                    cur = cand;
+                }
+            }
+            return json!({"sequence": cur});
+        }
         let Some(m) = replay.get("module").and_then(module_from_json) else { return replay.clone() };
         let f: Faults = replay.get("faults").and_then(|f| serde_json::from_value(f.clone()).ok()).unwrap_or_default();
         if replay.get("compile_only").and_then(|b| b.as_bool()) == Some(true) {
@@ -417,6 +492,12 @@ impl Check for C04 {
         json!({"module": module_json(&mm), "faults": f, "cards": count_cards(&mm)})
     }
     fn replay(&self, replay: &Json, ctx: &mut CaseCtx) {
+        if let Some(h) = replay.get("sequence").and_then(|h| serde_json::from_value::<super::c17::History>(h.clone()).ok()) {
+            for (sig, what) in examine_sequence(ctx, &h) {
+                ctx.violation(sig, what, replay.clone());
+            }
+            return;
+        }
         let Some(m) = replay.get("module").and_then(module_from_json) else { return };
         let f: Faults = replay.get("faults").and_then(|f| serde_json::from_value(f.clone()).ok()).unwrap_or_default();
         if replay.get("compile_only").and_then(|b| b.as_bool()) == Some(true) {
